@@ -31,7 +31,7 @@ def cases(tier, rng, dist):
         m = [[rng.randint(0, 1) for _ in range(Ns)] for _ in range(R)]
         ov = rng.choice(["none", "none", "zero_int", "zero_float", "half", "one", "actual", "big"])
         yield {"f": "sim", "m": m, "ov": ov, "num_perm": rng.randint(1, 6), "keep": rng.random() < 0.6,
-               "plus1": rng.random() < 0.5, "seed": rng.randint(0, 10**6)}
+               "plus1": rng.random() < 0.5, "seed": real_seed(rng)}
     for _ in range(150 if tier == "quick" else 1500):
         B, S = rng.randint(1, 6), rng.randint(2, 4)
         cols = [[rng.randint(0, 3) for _ in range(B)] for _ in range(S)]
